@@ -121,8 +121,20 @@ def run_property(pid: str, tier: str, seed: int, jobs: int | None = None) -> int
         jobs = int(os.environ.get("VERIF_JOBS", "0")) or (os.cpu_count() or 4)
     jobs = max(1, min(jobs, len(specs)))
     wd = WATCHDOG_S[tier]
+    native_crashes = []
+
+    def run_shard_spec(s):
+        # A worker killed by a signal (a native crash inside the pre-built HAL simulator / NetworkTables threads) says nothing
+        # about the library: the shard - deterministic on the Python side - is run again, at most twice; recorded in the evidence.
+        r = _run_worker(engine_name, "shard", s, wd)
+        for _ in range(2):
+            if not ("inconclusive" in r and "worker died rc=-" in r["inconclusive"]):
+                break
+            native_crashes.append(f"shard {s['shard']}: {r['inconclusive']}")
+            r = _run_worker(engine_name, "shard", s, wd)
+        return r
     with ThreadPoolExecutor(max_workers=jobs) as ex:
-        results = list(ex.map(lambda s: _run_worker(engine_name, "shard", s, wd), specs))
+        results = list(ex.map(run_shard_spec, specs))
 
     merged = {"evaluations": 0, "oracle_checks": 0, "events": {}, "samples": [],
               "violation_counts": {}, "extra": {}}
@@ -240,6 +252,7 @@ def run_property(pid: str, tier: str, seed: int, jobs: int | None = None) -> int
         "known_findings_seen": known_seen,
         "candidate_violation_counts": merged["violation_counts"],
         "unreproduced_candidates": unreproduced,
+        "shards_rerun_after_native_crash": native_crashes,
         "inconclusive": inconclusive,
         "verdict": ("violated" if confirmed else "inconclusive" if inconclusive else "held on what was observed"),
     }
